@@ -236,8 +236,8 @@ class OffsetOperandStub:
                         return Symbol(token.ctx_start, token.ctx_end, token.representation, is_necessarily_label=True)
                 elif isinstance(token, (Symbol, InstructionPointer)):
                     fixup_active = False
-                else:
-                    assert False  # TODO: really?
+                # Anything else (a decimal or prefixed number, a character
+                # literal, a bracketed group) is not a label and is left as is
                 return token
             fixup_label(operand)
 
